@@ -156,6 +156,22 @@ class Linter:
                 )
         with open(fname, encoding=encoding, errors="backslashreplace") as target_file:
             raw_file = target_file.read()
+        # The (deprecated) character limit is enforced by the templaters, but
+        # `render_string` swallows the skip they raise. Check it here as well,
+        # alongside the byte limit, so that a file skipped for its character
+        # count is counted as skipped (and can fail the run if configured)
+        # just like one skipped for its byte count.
+        char_limit = file_config.get("large_file_skip_char_limit")
+        if char_limit:
+            file_length = len(Linter._normalise_newlines(raw_file))
+            if file_length > int(char_limit):
+                raise SQLFluffSkipFile(
+                    f"Length of file {fname!r} is {file_length} characters which "
+                    f"is over the limit of {char_limit} characters. Skipping to "
+                    "avoid parser lock. Users can increase this limit in their "
+                    "config by setting the 'large_file_skip_char_limit' value, or "
+                    "disable by setting it to zero."
+                )
         # Scan the raw file for config commands.
         file_config.process_raw_file_for_config(raw_file, fname)
         # Return the raw file and config
